@@ -385,7 +385,7 @@ func sameStrMap(a, b map[string]string) bool {
 }
 
 func c05Run(c *h.Ctx) {
-	n := c.Pick(40, 2000)
+	n := c.Pick(160, 2000)
 	for k := 0; k < n; k++ {
 		id := fmt.Sprintf("h%d", k)
 		if !c.Case(id) {
